@@ -193,7 +193,7 @@ pub fn run(cfg: &Cfg) {
     let mut cx = Ctx { rep: &mut rep, kx, kz, pairs: Default::default() };
 
     // 1. bounded-exhaustive: every (n, guess interval g, rank r)
-    let nmax = if thorough { 40 } else { 13 };
+    let nmax = if thorough { 32 } else { 13 };
     let mut wanted = 0u64;
     for n in 2..=nmax {
         for g in 0..(n - 1) {
@@ -227,7 +227,7 @@ pub fn run(cfg: &Cfg) {
     cx.rep.count_n("sweep:(n,g,r) triples requested", wanted);
 
     // 2. random axes of every spacing class
-    let nrand = if thorough { 3000 } else { 250 };
+    let nrand = if thorough { 2000 } else { 250 };
     for i in 0..nrand {
         let n = pick_n(&mut rng, thorough);
         let sp = *rng.pick(&SPACINGS);
@@ -332,7 +332,7 @@ pub fn run(cfg: &Cfg) {
         int_case(&mut cx, &ax, &queries, small);
     }
     // 4b. i32 axes with a large span and many knots: (len-1)*(q-x0) exceeds i32 although the span does not
-    for _ in 0..(if thorough { 12 } else { 3 }) {
+    for _ in 0..(if thorough { 6 } else { 3 }) {
         let n = rng.range(1500, 2500) as usize;
         let step = rng.range(500, 900);
         let start = rng.range(-100000, 100000);
